@@ -1,7 +1,10 @@
 (* C07: the model of the playtak bot loop (Bot.v instantiated in BotInst.v) stepped over the event list of
    a schedule that the real PlayGame / ObserveGame was driven through; L1 = per event: the lines passed to
-   SendCommand, loop status, number of recorded positions, recorded moves, current position; finally
-   every recorded position.
+   SendCommand, loop status, number of recorded positions, recorded moves, current position, the chat callbacks
+   made (HandleTell / HandleChat with their arguments) and the clocks g.times; finally every recorded position.
+   The model run starts from the RAW text of every line the real loop received: BotLine.classify (the two
+   switches of handleMove with the three chat regexps, Atoi and ParseServer) turns it into the event of Bot.v,
+   the callback and the clock values; the older dispatch BotInst.classify must agree on the event.
    input:  <size> <W|B|O> <accept> <instant> <gamestr hex> ; <ops (unused here)> ; <event> ; ...
    events: L <hex of the server line>-  |  Z  |  A <move> <start ply> <ctx cancelled 0|1>  |  G
            LA <hex>- <move> <start ply> <cancelled>: the thinker's answer landed in its channel while the loop was
@@ -14,6 +17,18 @@ let bytes_of_hex (h : string) : BinNums.coq_N list =
 let string_of_bytes (b : BinNums.coq_N list) : string =
   S.concat "" (L.map (fun c -> S.make 1 (Stdlib.Char.chr (int_of_n c))) b)
 let under s = S.map (fun c -> if c = ' ' then '_' else c) s
+let hex_of_bytes (l : BinNums.coq_N list) = S.concat "" (L.map (fun b -> Printf.sprintf "%02x" (int_of_n b)) l)
+
+let conv_line (l : PtnMove.move Bot.line) : Move.rmove Bot.line =
+  match l with
+  | Bot.LMove m -> Bot.LMove (BotInst.to_rmove m)
+  | Bot.LBad -> Bot.LBad | Bot.LTime -> Bot.LTime | Bot.LReqUndo -> Bot.LReqUndo | Bot.LUndo -> Bot.LUndo
+  | Bot.LOver -> Bot.LOver | Bot.LAbandoned -> Bot.LAbandoned | Bot.LOther -> Bot.LOther
+
+let enc_chat = function
+  | BotLine.ChatNone -> "-"
+  | BotLine.ChatTell (w, m) -> "T:" ^ hex_of_bytes w ^ ":" ^ hex_of_bytes m
+  | BotLine.ChatRoom (r, w, m) -> "C:" ^ hex_of_bytes r ^ ":" ^ hex_of_bytes w ^ ":" ^ hex_of_bytes m
 
 let run args =
   let fixed = (match args with "pinned" :: _ -> false | _ -> true) in
@@ -26,11 +41,26 @@ let run args =
         | _ -> failwith "c07 header") in
       let col = n_of_int col in
       let gstr = string_of_bytes gs in
+      let white = (col = n_of_int 0) in
       let st = ref (BotInst.bot_init sz col) in
+      let sec600 = BotLine.seconds (z_of_int 600) in
+      let times = ref (sec600, sec600) in           (* g.times.mine, g.times.theirs: both start at g.Time = 600 s *)
       let obs = ref [] in
       L.iter (fun e ->
         let before = !st in
         let note = ref "" in
+        let chat = ref "-" in
+        (* one received line: the raw bytes -> (event of Bot.v, chat callback, clocks) *)
+        let line_ev h =
+          let raw = bytes_of_hex h in
+          let r = BotLine.classify gs raw in
+          let ev = conv_line r.BotLine.l_ev in
+          if ev <> BotInst.classify gs raw then note := !note ^ "!classify-differs";
+          if not (before.Bot.ended || before.Bot.crashed) then begin
+            chat := enc_chat r.BotLine.l_chat;
+            times := BotLine.set_times white !times r.BotLine.l_times
+          end;
+          Bot.Line ev in
         let answer_ev st0 m ply cancel =
           if cancel = "1" then Bot.Late (parse_move m)
           else begin
@@ -40,11 +70,11 @@ let run args =
           end in
         let stepm s ev = BotInst.bot_step sz col fixed accept s ev in
         (match words e with
-          | ["L"; h] -> st := stepm before (Bot.Line (BotInst.classify gs (bytes_of_hex h)))
+          | ["L"; h] -> st := stepm before (line_ev h)
           | ["LA"; h; m; ply; cancel] ->
             (* whether the thinker belongs to the current invocation is decided on the state the line was taken in *)
             let a = answer_ev before m ply cancel in
-            let s1 = stepm before (Bot.Line (BotInst.classify gs (bytes_of_hex h))) in
+            let s1 = stepm before (line_ev h) in
             st := stepm s1 a
           | ["Z"] -> st := stepm before Bot.Closed
           | ["G"] -> st := stepm before Bot.Grace
@@ -60,7 +90,8 @@ let run args =
         let ms = L.rev s.Bot.moves in
         let mstr = if ms = [] then "-" else S.concat "," (L.map enc_move ms) in
         let top = (match s.Bot.hist with p :: _ -> enc_abs p | [] -> "-") in
-        obs := Printf.sprintf "%s^%s^%d^%s^%s%s" (S.concat "," !sends) ret (L.length s.Bot.hist) mstr top !note :: !obs) events;
+        obs := Printf.sprintf "%s^%s^%d^%s^%s^%s^%s:%s%s" (S.concat "," !sends) ret (L.length s.Bot.hist) mstr top !chat
+                 (string_of_z (fst !times)) (string_of_z (snd !times)) !note :: !obs) events;
       let final = "F:" ^ S.concat "~" (L.map enc_abs (L.rev (!st).Bot.hist)) in
       (S.concat " ; " (L.rev (final :: !obs)), None, None)
     | _ -> failwith "c07 input")
